@@ -2,10 +2,10 @@
 SPECIFICATION Spec
 CONSTANTS
   W = 8
-  Sizes <- SzQuick
+  Sizes <- SzAll
   Guarded = TRUE
-  JSizes <- JSQuick
-  JFlags <- JFQuick
-  MaxStr = 6
+  JSizes <- JSAll
+  JFlags <- JFAll
+  MaxStr = 12
 INVARIANTS TypeOK CursorInBounds Progress HeaderReadInBounds ReadsWithinEvent VerdictIsExit0or1 StepIsExtent
 CHECK_DEADLOCK FALSE
